@@ -226,13 +226,25 @@ func loadKnown(verif string) []knownFinding {
 // level is the evidence level; mc selects the model_checking keys (states/transitions).
 func (r *Reporter) Finish(level, rule string, replay func(raw []byte) (bool, string)) int {
 	known := loadKnown(r.verif)
-	isKnown := func(sig string) (string, bool) {
-		for _, k := range known {
+	type agg struct {
+		sigs, cases int64
+		first       string
+	}
+	perEntry := map[int]*agg{}
+	isKnown := func(sig string, cases int64) bool {
+		for i, k := range known {
 			if k.matches(r.ID, sig) {
-				return k.desc, true
+				a := perEntry[i]
+				if a == nil {
+					a = &agg{first: sig}
+					perEntry[i] = a
+				}
+				a.sigs++
+				a.cases += cases
+				return true
 			}
 		}
-		return "", false
+		return false
 	}
 	var sigs []string
 	for s := range r.viols {
@@ -244,8 +256,7 @@ func (r *Reporter) Finish(level, rule string, replay func(raw []byte) (bool, str
 	var knownSeen []string
 	for _, s := range sigs {
 		v := r.viols[s]
-		if d, ok := isKnown(s); ok {
-			fmt.Printf("KNOWN-FINDING: property=%s sig=%s (%d cases) %s\n", r.ID, s, v.Count, d)
+		if isKnown(s, v.Count) {
 			knownSeen = append(knownSeen, s)
 			continue
 		}
@@ -270,6 +281,11 @@ func (r *Reporter) Finish(level, rule string, replay func(raw []byte) (bool, str
 		}
 		fmt.Printf("VIOLATION property=%s replay=%s sig=%s cases=%d%s detail=%s\n", r.ID, path, s, v.Count, status, trunc(v.Detail, 600))
 		exit = 1
+	}
+	for i, k := range known {
+		if a := perEntry[i]; a != nil {
+			fmt.Printf("KNOWN-FINDING: property=%s sig=%s (%d signatures, %d cases, first: %s) %s\n", r.ID, k.sig, a.sigs, a.cases, a.first, k.desc)
+		}
 	}
 	// known findings that did not show up are reported (informational only).
 	for _, k := range known {
